@@ -953,7 +953,9 @@ def parallel_cases(scratch, rnd, thorough, shard=0, nshards=1):
                 continue
         else:
             mx = mx_form
-        kwargs = dict(n_jobs=2, backend=backend, temp_folder=os.path.join(scratch, "jl"), mmap_mode=mode)
+        # `timeout`: a task that cannot be un-serialised in a multiprocessing.Pool worker is never answered; the
+        # watchdog turns that hang into the exception the oracle reports (TimeoutError)
+        kwargs = dict(n_jobs=2, backend=backend, temp_folder=os.path.join(scratch, "jl"), mmap_mode=mode, timeout=60)
         if mx != "default":
             kwargs["max_nbytes"] = mx
         mx_bytes = memstr("1M") if mx == "default" else (memstr(mx) if isinstance(mx, str) else mx)
